@@ -1226,6 +1226,22 @@ static void run_one(void)
     if (!reused && vx_opt_int("reuse", 1)) {
         /* first life */
         memset(&warm_proc, 0, sizeof warm_proc);
+        /* the first life ends while its recording is still switched on: the second one starts without */
+        for (int r = 0; r < D.nres; r++) {
+            cmb_resource_start_recording(&D.res[r]);
+        }
+        if (D.has_pool) {
+            cmb_resourcepool_start_recording(&D.pool);
+        }
+        if (D.has_buf) {
+            cmb_buffer_recording_start(&D.buf);
+        }
+        if (D.has_oq) {
+            cmb_objectqueue_recording_start(&D.oq);
+        }
+        if (D.has_pq) {
+            cmb_priorityqueue_recording_start(&D.pq);
+        }
         cmb_process_initialize(&warm_proc, "W", warm_body, NULL, 0);
         cmb_process_start(&warm_proc);
         while (cmb_event_execute_next()) {
